@@ -491,6 +491,15 @@ type leafInfo struct {
 }
 
 func mapLeaves(t types.Type, prefix string) []leafInfo {
+	if im, ok := t.Underlying().(*types.Map); ok {
+		// a map of maps: the inner map is stored by value as nested arrays (no aliasing between inner maps)
+		k2 := sortOfType(im.Key())
+		out := []leafInfo{{prefix + "#ref", SInt, t}, {prefix + "#dom", SArr(k2, SBool), t}}
+		for _, l := range mapLeaves(im.Elem(), "") {
+			out = append(out, leafInfo{prefix + "#val" + l.name, SArr(k2, l.sort), t})
+		}
+		return out
+	}
 	if _, ok := t.Underlying().(*types.Interface); ok && !isErrorType(t) {
 		return []leafInfo{{prefix + "#tag", SInt, t}, {prefix + "#id", SInt, t}}
 	}
